@@ -265,6 +265,12 @@ func watchdog(c *Ctx) chan struct{} {
 			if ms.Sys > 12<<30 {
 				debug.SetGCPercent(100) // the harness itself must not be what fills the memory
 			}
+			// every engine watches its deadline (the tier's budget) and winds down on its own; a check
+			// still running at four times the budget is stuck in code that cannot be interrupted
+			if b := c.Deadline.Sub(c.Start); time.Since(c.Start) > 4*b && len(explore.InFlight(time.Minute)) == 0 {
+				fmt.Printf("harness error: check %s did not finish within four times its time budget (%s)\n", c.ID, b)
+				os.Exit(2)
+			}
 			stuck := explore.InFlight(10 * time.Minute)
 			if ms.Sys > 24<<30 || len(stuck) > 0 {
 				if len(stuck) == 0 {
